@@ -253,4 +253,25 @@ Theorem C08_roots_default_partial : forall o old new fuel,
 Proof. exact diff_core_roots_default. Qed.
 Print Assumptions C08_roots_default_partial.
 
+(* ---- build histories ---------------------------------------------------------------------------------------------- *)
+(* an index is its FINAL key -> entry map: [final_map] of a history of sets and deletes is the dictionary the
+   history describes, and diff depends on nothing else.  (The real back ends - in-memory pygtrie, SQLite with an
+   entry cache - are tied to this by the `disk` stream of the harness: real indexes built through histories
+   with overwrites, del / pop / delete_node, reads, commits, close + reopen, compared with the model run on
+   [final_map history].) *)
+Theorem C08_history_final_map : forall i op k',
+  lookup (apply_hop i op) k' =
+  match op with
+  | HSet k e => if key_eqb k' k then Some e else lookup i k'
+  | HDel k => if key_eqb k' k then None else lookup i k'
+  end.
+Proof. exact lookup_apply_hop. Qed.
+Print Assumptions C08_history_final_map.
+
+Theorem C08_history_final_only : forall o h1 h2 h1' h2' fuel,
+  final_map h1 = final_map h1' -> final_map h2 = final_map h2' ->
+  diff o (Some (final_map h1)) (Some (final_map h2)) fuel = diff o (Some (final_map h1')) (Some (final_map h2')) fuel.
+Proof. exact diff_final_map_only. Qed.
+Print Assumptions C08_history_final_only.
+
 (* NOT PROVED: exactness for `roots` other than [()] (see above); swap for shallow = True. *)
